@@ -344,7 +344,10 @@ func (eval Evaluator) InnerFunction(ctIn *Ciphertext, batchSize, n int, f func(a
 	*ctInNTT.MetaData = *ctIn.MetaData
 	ctInNTT.IsNTT = true
 
-	if !ctIn.IsNTT {
+	// opOut receives the MetaData of ctInNTT below and can be ctIn
+	isNTT := ctIn.IsNTT
+
+	if !isNTT {
 		ringQ.NTT(ctIn.Value[0], ctInNTT.Value[0])
 		ringQ.NTT(ctIn.Value[1], ctInNTT.Value[1])
 	} else {
@@ -442,9 +445,10 @@ func (eval Evaluator) InnerFunction(ctIn *Ciphertext, batchSize, n int, f func(a
 		}
 	}
 
-	if !ctIn.IsNTT {
+	if !isNTT {
 		ringQ.INTT(opOut.Value[0], opOut.Value[0])
 		ringQ.INTT(opOut.Value[1], opOut.Value[1])
+		opOut.IsNTT = false
 	}
 
 	return
